@@ -56,6 +56,8 @@ CHEMS_T = CHEMS_Q + ['N2', 'CO2', 'Ammonia', 'Butane']
 TG = [250., 275., 298.15, 310., 340., 370., 400., 450., 500.]
 PG = [1e4, 101325., 1e6]
 ORDER = {'s': 0, 'l': 1, 'g': 2}
+HVAP_ARG = 38000.     # J/mol, constant user model passed as `Hvap=`
+CN_ARG = 80.          # J/mol/K, constant user model passed as `Cn=` to a phase-locked chemical
 
 _chem = {}
 def chem(ID, mode):
@@ -65,6 +67,8 @@ def chem(ID, mode):
     if key not in _chem:
         tmo = fx.tmo()
         if mode[0] == 'ref': _chem[key] = tmo.Chemical(ID, phase_ref=mode[1])
+        elif mode[0] == 'refHvap': _chem[key] = tmo.Chemical(ID, phase_ref=mode[1], Hvap=HVAP_ARG)     # documented constructor model argument
+        elif mode[0] == 'lockCn': _chem[key] = tmo.Chemical(ID, phase=mode[1], Cn=CN_ARG)
         else: _chem[key] = tmo.Chemical(ID, phase=mode[1])
     return _chem[key]
 
@@ -146,6 +150,10 @@ class Pure(System):
             extra = [c for c in CHEMS_T if c not in CHEMS_Q]
             ids = ids + [extra[seed % len(extra)]]
         cf = [(ID, kind, p) for ID in ids for kind in ('ref', 'lock') for p in 'slg']
+        # chemicals AS CONSTRUCTED with a user model passed to the constructor (`Hvap=` constant on a free chemical, `Cn=` constant on a
+        # phase-locked one): the functors must be built from the model the chemical ends up with
+        vids = ['Ethanol', 'Hexane'] if tier == 'quick' else ['Ethanol', 'Hexane', 'Water', 'Octanol']
+        cf += [(ID, 'refHvap', p) for ID in vids for p in 'slg'] + [(ID, 'lockCn', p) for ID in vids for p in 'lg']
         k = seed % len(cf)
         return cf[k:] + cf[:k]
 
@@ -153,12 +161,13 @@ class Pure(System):
     def canon(self, st): return (st['config'], st['last'])
 
     def _phases(self, config):
-        return 'slg' if config[1] == 'ref' else config[2]
+        return 'slg' if config[1].startswith('ref') else config[2]
 
     def actions(self, st):
         if st['last'] is not None: return []
         ID, kind, p = st['config']
         c = chem(ID, (kind, p))
+        kind = 'ref' if kind.startswith('ref') else 'lock'
         Ts = sorted(set(TG + [float(c.Tm), float(c.Tb)]))
         acts = [('ref',)]
         for ph in self._phases(st['config']):
@@ -177,13 +186,14 @@ class Pure(System):
         return acts
 
     def step(self, st, a):
-        ID, kind, p = st['config']
+        ID, kind0, p = st['config']
+        kind = 'ref' if kind0.startswith('ref') else 'lock'
         mode = (kind, p)
         try:
-            c = chem(ID, mode)
+            c = chem(ID, (kind0, p))
         except Exception as e:
             raise Rejected(f'construct:{type(e).__name__}', cut=True)
-        m = dict(clause_kind=a[0], mode=kind, ref=p)
+        m = dict(clause_kind=a[0], mode=kind0, ref=p)
         try:
             obs = self._check(c, mode, a, m)
         except Violation: raise
@@ -481,49 +491,69 @@ class Mixing(System):
 
 # =========================================================================================================================================
 class Setters(System):
-    """history layer: a chemical (a private copy of a database chemical) is edited through every public setter that feeds
-    `Chemical._init_energies` (Tb, Tm, Hfus, S0, phase_ref, copy, reset_free_energies); after EVERY step the reference-state, jump and
-    path-assembly clauses are re-evaluated on the mutated chemical, against the walk over the primitives with the chemical's CURRENT public
-    Tm, Tb, Hfus, Hvap(Tb), S0, phase_ref."""
+    """history layer: a chemical (a private copy of a database chemical, or of one built with a user model passed to the constructor) is
+    edited through every public entry point that feeds `Chemical._init_energies`: the setters Tb, Tm, Hfus, S0, phase_ref, `copy`,
+    `reset_free_energies`, `copy_models_from(donor, [Cn | Hvap | both])`, `at_state(phase)` and `at_state(phase, copy=True)`.  After EVERY
+    step the reference-state, jump and path-assembly clauses are re-evaluated on the mutated chemical, against the walk over the primitives
+    with the chemical's CURRENT public Tm, Tb, Hfus, Hvap(Tb), Cn, S0, phase_ref / locked phase."""
     name = 'c07.setters'
     merge_across_configs = False
     PTS = [('s', 260.), ('l', 275.), ('l', 340.), ('g', 340.), ('g', 450.)]
+    DONOR = 'Propanol'
 
     def warm(self): fx.tmo()
     def depth(self, tier): return 3 if tier == 'quick' else 4
+    def time_cap(self, tier): return 200 if tier == 'quick' else 900
 
     def configs(self, tier, seed):
         ids = ['Water', 'Ethanol', 'Hexane', 'AceticAcid'] if tier == 'quick' else ['Water', 'Ethanol', 'Hexane', 'AceticAcid', 'Benzene', 'Glycerol', 'Octanol', 'Butane']
         cf = [(ID, p) for ID in ids for p in 'slg']
+        # chemicals built with a user model given to the constructor (`Hvap=` on a free chemical, `Cn=` on a phase-locked one)
+        vids = ['Ethanol', 'Hexane'] if tier == 'quick' else ['Ethanol', 'Hexane', 'Water', 'Octanol']
+        cf += [(ID, p, 'Hvap-arg') for ID in vids for p in 'slg'] + [(ID, p, 'Cn-arg') for ID in vids for p in 'lg']
         k = seed % len(cf)
         return cf[k:] + cf[:k]
 
+    @staticmethod
+    def _mode(c):
+        return ('lock', c.locked_state) if c.locked_state else ('ref', c.phase_ref)
+
     def build(self, config):
-        ID, p = config
-        base = chem(ID, ('ref', p))
-        fp = (base.Tm, base.Tb, base.Hfus, base.S0, base.H('g', 400., 101325.), base.S('l', 300., 101325.) if p != 's' or base.Sfus is not None else None)
-        key = ('fp', ID, p)
-        if key not in _chem: _chem[key] = fp
-        elif _chem[key] != fp:
-            raise Violation('copy-not-independent', f'editing a copy of {ID} changed the chemical it was copied from: {_chem[key]} -> {fp}')
+        ID, p = config[0], config[1]
+        variant = config[2] if len(config) > 2 else 'db'
+        base = chem(ID, {'db': ('ref', p), 'Hvap-arg': ('refHvap', p), 'Cn-arg': ('lockCn', p)}[variant])
+        donor = chem(self.DONOR, ('ref', 'l'))
+        for nm, b in ((ID, base), (self.DONOR, donor)):
+            md = self._mode(b)
+            fp = (b.Tm, b.Tb, b.Hfus, b.S0, b.phase_ref, b.locked_state, call(b.H, md, 'g', 400., 101325.), call(b.Cn, md, 'l', 300.))
+            key = ('fp', nm, p if b is base else 'l', variant if b is base else 'db')
+            if key not in _chem: _chem[key] = fp
+            elif _chem[key] != fp:
+                raise Violation('copy-not-independent', f'editing a copy of / copying models from {nm} changed that chemical: {_chem[key]} -> {fp}')
         return dict(config=config, c=base.copy(ID + '_edit'), last=None, n=0)
 
     def canon(self, st):
         c = st['c']
         def fdata(h):
             out = []
-            for ph in 'slg':
-                f = getattr(h, ph, None)
+            parts = [getattr(h, ph, None) for ph in 'slg'] if any(hasattr(h, ph) for ph in 'slg') else [h]
+            for f in parts:
                 d = getattr(f, '__dict__', {})
-                out.append(tuple(sorted((k, fx.r12(v)) for k, v in d.items() if isinstance(v, (int, float)))))
+                out.append((type(f).__name__, tuple(sorted((k, fx.r12(v)) for k, v in d.items() if isinstance(v, (int, float))))))
             return tuple(out)
-        return (st['config'], c.phase_ref, fx.r12(c.Tm), fx.r12(c.Tb), fx.r12(c.Hfus), None if c.Sfus is None else fx.r12(c.Sfus), fx.r12(c.S0),
-                fdata(c._H), fdata(c._S))
+        md = self._mode(c)
+        try: models = (fx.r12(c.Hvap(c.Tb)), fx.r12(call(c.Cn, md, 'l', 300.)), fx.r12(call(c.Cn, md, 'g', 400.)))
+        except Exception as e: models = type(e).__name__
+        return (tuple(st['config']), md, fx.r12(c.Tm), fx.r12(c.Tb), fx.r12(c.Hfus), None if c.Sfus is None else fx.r12(c.Sfus), fx.r12(c.S0),
+                models, fdata(c._H), fdata(c._S))
 
     def actions(self, st):
         c = st['c']
         acts = [('Tb', 4.), ('Tb', -3.), ('Tm', 2.), ('Hfus', 1.125), ('S0', 5.), ('copy',), ('reset',)]
-        acts += [('phase_ref', q) for q in 'slg' if q != c.phase_ref]
+        if not c.locked_state:
+            acts += [('phase_ref', q) for q in 'slg' if q != c.phase_ref]
+            acts += [('copy_models', nm) for nm in (('Cn',), ('Hvap',), ('Cn', 'Hvap'))]
+            acts += [('at_state', q, cp) for q in 'slg' for cp in (False, True)]
         return acts
 
     def step(self, st, a):
@@ -537,6 +567,10 @@ class Setters(System):
             elif op == 'phase_ref': c.phase_ref = a[1]
             elif op == 'copy': st['c'] = c.copy(c.ID + 'c')
             elif op == 'reset': c.reset_free_energies()
+            elif op == 'copy_models': c.copy_models_from(chem(self.DONOR, ('ref', 'l')), list(a[1]))
+            elif op == 'at_state':
+                if a[2]: st['c'] = c.at_state(a[1], copy=True)
+                else: c.at_state(a[1])
             else: raise ValueError(a)
         except UNDOC as e:
             raise Violation('unexpected-exception', f'{st["config"]} {a!r}: {type(e).__name__}: {e}', match=dict(exc=type(e).__name__, after=op))
@@ -546,40 +580,47 @@ class Setters(System):
     def invariants(self, st):
         c = st['c']; op = st['last'] or 'construct'
         ID = st['config'][0]
-        mode = ('ref', c.phase_ref)
+        variant = st['config'][2] if len(st['config']) > 2 else 'db'
+        mode = self._mode(c)
         out = []
         P = 101325.
         def V(clause, msg, resid, **mm):
-            out.append(Violation(clause, f'{ID} (ref {c.phase_ref}) after {op}: ' + msg, match=dict(after=op, **mm), residual=resid))
+            out.append(Violation(clause, f'{ID} [{variant}] ({mode[0]} {mode[1]}) after {op}: ' + msg, match=dict(after=op, **mm), residual=resid))
         try:
-            ph = c.phase_ref
-            H0 = c.H(ph, c.T_ref, c.P_ref); S00 = c.S(ph, c.T_ref, c.P_ref)
+            ph = mode[1]
+            H0 = call(c.H, mode, ph, c.T_ref, c.P_ref); S00 = call(c.S, mode, ph, c.T_ref, c.P_ref)
             if abs(H0 - c.H_ref) > 1e-9: V('reference-H', f'H(ref state) = {H0!r}', abs(H0))
             if abs(S00 - c.S0) > 1e-9 * max(1., abs(c.S0)): V('reference-S', f'S(ref state) = {S00!r}, S0 = {c.S0!r}', abs(S00 - c.S0))
-            for tr, Tt, L, hi, lo in (('vap', c.Tb, c.Hvap(c.Tb), 'g', 'l'), ('fus', c.Tm, c.Hfus, 'l', 's')):
-                Hh, Hl = c.H(hi, Tt, P), c.H(lo, Tt, P)
-                if not (abs(Hh - Hl - L) <= 1e-9 * max(abs(L), abs(Hh), abs(Hl)) + 1e-9):
-                    V('jump-H', f'H_{hi}({Tt}) - H_{lo}({Tt}) = {Hh - Hl!r}, latent heat = {L!r}', abs(Hh - Hl - L), transition=tr)
-                Pterm = -R * math.log(P / c.P_ref) if hi == 'g' else 0.
-                Sh, Sl = c.S(hi, Tt, P), c.S(lo, Tt, P)
-                dS = Sh - Sl - Pterm
-                if not (abs(dS - L / Tt) <= 1e-9 * max(abs(L / Tt), abs(Sh), abs(Sl)) + 1e-6 * abs(Pterm) + 1e-9):
-                    V('jump-S', f'S_{hi}({Tt}) - S_{lo}({Tt}) = {dS!r}, latent heat / T = {L / Tt!r}', abs(dS - L / Tt), transition=tr)
+            if mode[0] == 'ref':
+                for tr, Tt, L, hi, lo in (('vap', c.Tb, c.Hvap(c.Tb), 'g', 'l'), ('fus', c.Tm, c.Hfus, 'l', 's')):
+                    Hh, Hl = c.H(hi, Tt, P), c.H(lo, Tt, P)
+                    if not (abs(Hh - Hl - L) <= 1e-9 * max(abs(L), abs(Hh), abs(Hl)) + 1e-9):
+                        V('jump-H', f'H_{hi}({Tt}) - H_{lo}({Tt}) = {Hh - Hl!r}, latent heat = {L!r}', abs(Hh - Hl - L), transition=tr)
+                    Pterm = -R * math.log(P / c.P_ref) if hi == 'g' else 0.
+                    Sh, Sl = c.S(hi, Tt, P), c.S(lo, Tt, P)
+                    dS = Sh - Sl - Pterm
+                    if not (abs(dS - L / Tt) <= 1e-9 * max(abs(L / Tt), abs(Sh), abs(Sl)) + 1e-6 * abs(Pterm) + 1e-9):
+                        V('jump-S', f'S_{hi}({Tt}) - S_{lo}({Tt}) = {dS!r}, latent heat / T = {L / Tt!r}', abs(dS - L / Tt), transition=tr)
             if not out:
-                for q, T in self.PTS:
+                pts = self.PTS if mode[0] == 'ref' else [(mode[1], 275.), (mode[1], 340.), (mode[1], 450.)]
+                for q, T in pts:
                     Hr, Sr, Pterm, sH, sS = path_HS(c, mode, q, T, P)
-                    H = c.H(q, T, P); S = c.S(q, T, P) - Pterm
+                    H = call(c.H, mode, q, T, P); S = call(c.S, mode, q, T, P) - Pterm
                     if not (abs(H - Hr) <= 1e-9 * sH + 1e-9):
                         V('assembly-H', f'H({q}, {T}) = {H!r}, path from the reference state gives {Hr!r}', abs(H - Hr), phase=q); break
                     if not (abs(S - Sr) <= 1e-9 * sS + 1e-6 * abs(Pterm) + 1e-9):
                         V('assembly-S', f'S({q}, {T}) = {S + Pterm!r}, path from the reference state gives {Sr + Pterm!r}', abs(S - Sr), phase=q); break
         except UNDOC as e:
-            out.append(Violation('unexpected-exception', f'{ID} (ref {c.phase_ref}) after {op}: {type(e).__name__}: {e}',
+            out.append(Violation('unexpected-exception', f'{ID} [{variant}] ({mode[0]} {mode[1]}) after {op}: {type(e).__name__}: {e}',
                                  match=dict(exc=type(e).__name__, after=op)))
+        except RuntimeError:
+            # a third-party correlation refuses to evaluate (e.g. the donor's Hvap model above the donor's critical temperature after
+            # copy_models_from): the state is outside the compared domain, nothing is demanded of it
+            return []
         return out[:1]
 
     def nontrivial(self, st, a, obs): return a[0] not in ('copy', 'reset')
-    def outcome(self, st, a, obs): return repr((st['c'].phase_ref, a[0]))
+    def outcome(self, st, a, obs): return repr((self._mode(st['c']), a[0]))
 
 
 SYSTEMS = [Pure(), Mixture(), Mixing(), Setters()]
